@@ -33,9 +33,20 @@ def error_of_message(m):
 class from_message:
     # message: any value (text, an error value - canonical or not -, a number ...)
     args = dict(message=SCALAR)
+    for_callers = True
 
     def spec(message):
         return error_of_message(str(message))
+
+
+@contract('hotxlfp.formulas.error:from_message', props=['C01', 'C08'])
+class from_message_of_exception:
+    # Parser.parse / call_function hand the exception object a host callable raised to from_message: any class, any args
+    # (none, text, unhashable containers); assumed only: str() of it returns text
+    args = dict(message=EXC)
+
+    def post(message, out):
+        return out.ret and is_canonical(out.value) and same(out.value, error_of_message(str(message)))
 
 
 @lemma(props=['C01'])
@@ -100,9 +111,21 @@ class Parser_parse:
         res = r['result']
         if is_err(res):
             return False
-        if err is None:
-            return True
-        return is_canonical_code(err) and res is None
+        if not (err is None or (is_canonical_code(err) and res is None)):
+            return False
+        # C02 (same outcome with debug output on or off) and C08: the record is a function of what the grammar parser did and of
+        # nothing else - in particular not of self.debug
+        if expression == '':
+            return same(res, '') and err is None
+        gs = callee_outcomes('grammarparser.parser:Parser.parse')
+        if len(gs) != 1:
+            return False
+        g = gs[0]
+        if g.ret and not is_err(g.value):
+            return same(res, g.value) and err is None
+        if g.ret:
+            return res is None and same(err, errmsg(from_message.spec(g.value)))
+        return res is None and same(err, errmsg(from_message.spec(g.raised)))
 
 
 @contract('hotxlfp.tinyemitter:Emitter.emit', props=['C10'], host_effect=True, for_callers=True)
@@ -265,6 +288,36 @@ def last_not_none(initial, values):
     return cur
 
 
+def same_part(x, y):
+    # a row / column descriptor: index, the label text as written (upper-cased) and the absolute flag
+    return same(x.index, y.index) and same(x.label, y.label) and same(x.is_absolute, y.is_absolute)
+
+
+def range_event_post(self, start_label, end_label, out):
+    es = emits(self)
+    if len(es) != 1 or es[0][0] != 'callRangeValue':
+        return False
+    a = es[0][1]
+    b = es[0][2]
+    s = extract_label.abstract(start_label.upper())
+    e = extract_label.abstract(end_label.upper())
+    # top-left and bottom-right however the corners were written
+    if not (a.row.index <= b.row.index and a.col.index <= b.col.index):
+        return False
+    # the two row descriptors and the two column descriptors of the upper-cased corner labels, each whole (index, label,
+    # absolute flag), distributed over the two cells
+    rows_ok = (same_part(a.row, s[0]) and same_part(b.row, e[0])) or (same_part(a.row, e[0]) and same_part(b.row, s[0]))
+    cols_ok = (same_part(a.col, s[1]) and same_part(b.col, e[1])) or (same_part(a.col, e[1]) and same_part(b.col, s[1]))
+    if not (rows_ok and cols_ok):
+        return False
+    # each cell's label agrees with the coordinates it carries
+    if not (same(a.label, to_label.spec(a.row, a.col)) and same(b.label, to_label.spec(b.row, b.col))):
+        return False
+    if not out.ret:
+        return True
+    return same(out.value, last_not_none(None, setter_values()))
+
+
 @contract('hotxlfp.parser:Parser.call_range_value', props=['C05', 'C10'])
 class Parser_call_range_value:
     # ~5 minutes of string solving: verified in the thorough tier only; the quick tier decides ranges with the bounded event runs
@@ -277,28 +330,7 @@ class Parser_call_range_value:
         return is_cell_label(start_label) and is_cell_label(end_label)
 
     def post(self, start_label, end_label, out):
-        es = emits(self)
-        if len(es) != 1 or es[0][0] != 'callRangeValue':
-            return False
-        a = es[0][1]
-        b = es[0][2]
-        s = extract_label.abstract(start_label.upper())
-        e = extract_label.abstract(end_label.upper())
-        # top-left and bottom-right however the corners were written
-        if not (a.row.index <= b.row.index and a.col.index <= b.col.index):
-            return False
-        rows_ok = (same(a.row.index, s[0].index) and same(b.row.index, e[0].index)) or \
-                  (same(a.row.index, e[0].index) and same(b.row.index, s[0].index))
-        cols_ok = (same(a.col.index, s[1].index) and same(b.col.index, e[1].index)) or \
-                  (same(a.col.index, e[1].index) and same(b.col.index, s[1].index))
-        if not (rows_ok and cols_ok):
-            return False
-        # each cell's label agrees with the coordinates it carries
-        if not (same(a.label, to_label.spec(a.row, a.col)) and same(b.label, to_label.spec(b.row, b.col))):
-            return False
-        if not out.ret:
-            return True
-        return same(out.value, last_not_none(None, setter_values()))
+        return range_event_post(self, start_label, end_label, out)
 
 
 @contract('hotxlfp.formulas.error:clear_tracebacks', props=['C02'])
